@@ -257,6 +257,39 @@ func cbordetGen(args []string) error {
 			put(append(append([]byte{}, b...), 0x18, 0x05), "deep/"+shape+"/badleaf", false)
 		}
 	}
+	// keys a cheap fingerprint cannot tell apart (twins.go): two distinct keys stay two keys, in order, wherever they occur
+	for _, tw := range fingerprintTwins() {
+		for _, mt := range []int{2, 3} {
+			k := func(s string) []byte { return append(ownHead(mt, uint64(len(s)), 0), s...) }
+			lo, hi := tw.A, tw.B
+			if lo > hi {
+				lo, hi = hi, lo
+			}
+			cat := func(parts ...[]byte) []byte {
+				var o []byte
+				for _, p := range parts {
+					o = append(o, p...)
+				}
+				return o
+			}
+			m2 := cat([]byte{0xa2}, k(lo), []byte{0x00}, k(hi), []byte{0x01})
+			put(m2, "twins/"+tw.Kind+"/map", false)
+			put(cat([]byte{0xa2}, k(hi), []byte{0x00}, k(lo), []byte{0x01}), "twins/"+tw.Kind+"/map reversed", false)
+			put(cat([]byte{0xa2}, k(lo), []byte{0x00}, k(lo), []byte{0x01}), "twins/"+tw.Kind+"/real duplicate", false)
+			put(cat([]byte{0xa3, 0x00, 0x00}, k(lo), []byte{0x00}, k(hi), []byte{0x01}), "twins/"+tw.Kind+"/map3", false)
+			put(cat([]byte{0x82}, m2, m2), "twins/"+tw.Kind+"/two maps in an array", false)
+			put(cat([]byte{0xa1, 0x00}, m2, []byte{0x82}, k(lo), k(hi)), "twins/"+tw.Kind+"/nested, then a sequence item", false)
+			// through the real encoder as well
+			var buf bytes.Buffer
+			e := verifapi.NewCborEncoder(&buf)
+			nd := &cnode{mt: 5, kids: []*cnode{{mt: mt, data: []byte(tw.A)}, {mt: 0, n: 0}, {mt: mt, data: []byte(tw.B)}, {mt: 0, n: 1}}}
+			if err := encodeReal(e, nd); err == nil {
+				put(buf.Bytes(), "twins/"+tw.Kind+"/encoder", true)
+			} else {
+				put([]byte{}, "twins/"+tw.Kind+"/encoder refused: "+err.Error(), false)
+			}
+		}
+	}
 	for i := 0; i < n; i++ {
 		// a CBOR sequence of 1..2 items
 		var seq []*cnode
